@@ -5,7 +5,7 @@ import ast
 from typing import Dict, List, Optional, Set
 
 from . import astu
-from .facts import Run
+from .facts import Run, cond_pol
 from .interp import Ctx, Frame, analyse_method
 from .model import AnalysisError, iter_functions
 from .report import RuleResult
@@ -969,28 +969,48 @@ def rule_CW(run: Run) -> RuleResult:
         ok = bool(dps) and all(p.status == "ret" and [(e.target.key() if e.target is not None else "", [a_.key() for a_ in e.args]) for e in p.events if e.kind == "call" and e.text == "register"]
                                == [("attr:overloads(self)", r2p[:2])] for p in dps)
     res.add("labrea.dataset.Dataset.register:delegates to self.overloads.register(key, value)", ok, ds.module.relpath, r2.lineno if r2 else 0, "", nec)
+    # Dataset.overload(alias)(definition): the one implementation object (the definition itself when it is a dataset, else
+    # dataset(definition)) is registered under the alias, or under every element of a list of aliases, and handed back —
+    # read off the paths of a probe call, whatever helpers normalise the alias or walk the keys
     ovl = ds.methods.get("overload")
     ok = False
+    how_ovl = ""
     if ovl is not None:
         alias_p = astu.param_names(ovl)[0]
-        derived = {alias_p}
-        for s_ in astu.walk_no_nested(ovl):
-            if isinstance(s_, (ast.Assign, ast.AnnAssign)) and s_.value is not None and astu.contains_name(s_.value, alias_p):
-                tg = s_.targets[0] if isinstance(s_, ast.Assign) else s_.target
-                if isinstance(tg, ast.Name):
-                    derived.add(tg.id)
-        for inner in [x for x in ast.walk(ovl) if isinstance(x, ast.FunctionDef) and x is not ovl]:
-            rets = [r.value.id for r in ast.walk(inner) if isinstance(r, ast.Return) and isinstance(r.value, ast.Name)]
-            for lp in [x for x in ast.walk(inner) if isinstance(x, ast.For)]:
-                if not (isinstance(lp.target, ast.Name) and isinstance(lp.iter, ast.Name) and lp.iter.id in derived):
-                    continue
-                for c in astu.calls_in(lp):
-                    if isinstance(c.func, ast.Attribute) and c.func.attr == "register" and astu.is_self_attr(c.func) and len(c.args) == 2 \
-                            and ast.unparse(c.args[0]) == lp.target.id and isinstance(c.args[1], ast.Name) and c.args[1].id in rets:
-                        # one implementation object for all aliases: created outside the loop
-                        created_in_loop = any(isinstance(a_, (ast.Assign, ast.AnnAssign)) and ast.unparse(a_.targets[0] if isinstance(a_, ast.Assign) else a_.target) == c.args[1].id for a_ in ast.walk(lp))
-                        ok = not created_in_loop
-    res.add("labrea.dataset.Dataset.overload:registers the implementation under every alias", ok, ds.module.relpath, ovl.lineno if ovl else 0, "", nec)
+        probe = ast.parse(f"def __probe__(self, {alias_p}, definition):\n    return self.overload({alias_p})(definition)").body[0]
+        for n_ in ast.walk(probe):
+            if hasattr(n_, "lineno"):
+                n_.lineno = n_.end_lineno = ovl.lineno
+        pps = [p for p in analyse_function(Ctx(repo), ds.module, probe, cls=ds) if p.status == "ret"]
+        reg_paths = 0
+        ok = bool(pps)
+        seen_alias_forms = set()
+        for p in pps:
+            regs = [e for e in p.events if e.kind == "call" and e.text == "register" and e.target is not None and e.target.key() == "attr:overloads(self)"]
+            if not regs:
+                continue
+            reg_paths += 1
+            impls = {e.args[1].key() for e in regs if len(e.args) == 2}
+            keys_ = {e.args[0].key() for e in regs if e.args}
+            seen_alias_forms |= keys_
+            if len(impls) != 1 or p.ret is None or p.ret.key() not in impls:
+                ok, how_ovl = False, f"registers {sorted(impls)} and returns {p.ret.key()[:60] if p.ret is not None else None}: not one implementation object for all aliases"
+            if not keys_ <= {alias_p, f"elem({alias_p})"} or any(getattr(e.args[0], "partial", False) for e in regs if e.args):
+                ok, how_ovl = False, f"registered under {sorted(keys_)}"
+            # one object for all aliases: it is built before the aliases are walked (a dataset(...) call inside the walk
+            # builds a new dataset — with its own cache and effects — per alias)
+            walk_at = [i_ for i_, e in enumerate(p.events) if e.kind == "iter" and e.target is not None and alias_p in e.target.key()]
+            built_at = [i_ for i_, e in enumerate(p.events) if e.kind == "call" and e.text.endswith("dataset.dataset")]
+            if walk_at and built_at and max(built_at) > min(walk_at):
+                ok, how_ovl = False, "the implementation dataset is built inside the walk over the aliases: one dataset per alias"
+        # a path that decorates without registering (apart from abstract zero-length lists) would lose the overload
+        lost = [p for p in pps if not any(e.kind == "call" and e.text == "register" for e in p.events)
+                and cond_pol(p.conds, f"call:isinstance({alias_p},name<list>)") is False]
+        if lost:
+            ok, how_ovl = False, "a single alias is decorated without being registered"
+        ok = ok and reg_paths >= 2 and seen_alias_forms == {alias_p, f"elem({alias_p})"}
+        how_ovl = how_ovl or f"{reg_paths} registering paths; keys {sorted(seen_alias_forms)}"
+    res.add("labrea.dataset.Dataset.overload:registers the implementation under every alias", ok, ds.module.relpath, ovl.lineno if ovl else 0, how_ovl, nec)
     # a single alias is registered as itself, a list of aliases element by element (read off the decorator's paths)
     ok_a = ovl is not None
     why_a = ""
